@@ -100,8 +100,8 @@ Inductive fs :=
 | Idle
 | Armed (fab : N) (fl : flags).
 
-(** The PASE session of the commissioner (CASE sessions are never removed by the
-    code under study and carry no state of their own). *)
+(** The PASE session of the commissioner.  (The CASE sessions, one per fabric index, are
+    live unless [s_case] says otherwise: a rollback that removes a fabric drops its sessions.) *)
 Inductive pase_st :=
 | PAbsent
 | PLive (fab : N)
@@ -117,7 +117,10 @@ Record state := mkState {
   s_kv    : kvs;
   s_key   : N;           (* staged operational key = key of the last CSR answered *)
   s_root  : N;           (* staged root = last root accepted *)
-  s_nkeys : N            (* CSRs answered so far (names the keys) *)
+  s_nkeys : N;           (* CSRs answered so far (names the keys) *)
+  s_case  : list (N * bool)
+    (* the administrator's CASE sessions that are no longer usable: (fabric index, true) =
+       still in the table but marked expired, (fabric index, false) = removed; no entry = live *)
 }.
 
 (** sessions a command can arrive on *)
@@ -139,7 +142,8 @@ Inductive op :=
 | ORevoke (s : sess)
 | OTimeout                               (* the fail-safe timer fires *)
 | ORestart
-| ONewPase.                              (* a fresh PASE session is established *)
+| ONewPase                               (* a fresh PASE session is established *)
+| ONewCase (f : N).                      (* a fresh CASE session of the administrator on fabric f *)
 
 Inductive status :=
 | StOk | StGone | StAccess | StFsReq | StBusy | StAuth | StFail | StConstraint
@@ -166,11 +170,18 @@ Definition next_idx (l : list fabric) : option N :=
   if fmax l <? 254 then Some (fmax l + 1) else first_free l.
 
 (** ** Sessions *)
+Definition cget (f : N) (l : list (N * bool)) : option bool :=
+  match find (fun e => fst e =? f) l with Some e => Some (snd e) | None => None end.
+Definition cdel (f : N) (l : list (N * bool)) : list (N * bool) :=
+  filter (fun e => negb (fst e =? f)) l.
+Definition cset (f : N) (b : bool) (l : list (N * bool)) : list (N * bool) :=
+  (f, b) :: cdel f l.
+
 Definition sess_ctx (st : state) (s : sess) : option (N * bool) :=
   (* Some (fabric index of the session mode, is it PASE) when the session is usable *)
   match s with
   | SP => match s_pase st with PLive f => Some (f, true) | _ => None end
-  | SC f => Some (f, false)
+  | SC f => match cget f (s_case st) with None => Some (f, false) | Some _ => None end
   end.
 
 (** Access control as far as these commands need it (all need Administer, which the
@@ -205,29 +216,35 @@ Definition with_armed (st : state) (sfab : N) : armed_result :=
   | Armed f fl => if f =? sfab then ArOk f fl else ArAuth
   end.
 
-(** ** FailSafe::expire.  [keep]: the caller's own PASE session is kept (marked expired).
-    [None]: [fabrics.remove] failed (fabric of the context not in the table), nothing changed. *)
+(** ** FailSafe::expire.  [caller]: the session the triggering command arrived on ([None]: the
+    timer).  The fabric of the context is dropped from the table (if it is there) and reloaded
+    from the store; networks reloaded or reset; every PASE session is removed and, when the
+    reload left no fabric at that index, so is the CASE session on it - except that the
+    caller's own session, if it is one of those, is kept, marked expired, for the answer. *)
 Definition set_fs (st : state) (x : fs) : state :=
   mkState x (s_bc st) (s_win st) (s_pase st) (s_fabs st) (s_nets st) (s_kv st)
-          (s_key st) (s_root st) (s_nkeys st).
+          (s_key st) (s_root st) (s_nkeys st) (s_case st).
 Definition set_bc (st : state) (x : N) : state :=
   mkState (s_fs st) x (s_win st) (s_pase st) (s_fabs st) (s_nets st) (s_kv st)
-          (s_key st) (s_root st) (s_nkeys st).
+          (s_key st) (s_root st) (s_nkeys st) (s_case st).
 Definition set_win (st : state) (x : bool) : state :=
   mkState (s_fs st) (s_bc st) x (s_pase st) (s_fabs st) (s_nets st) (s_kv st)
-          (s_key st) (s_root st) (s_nkeys st).
+          (s_key st) (s_root st) (s_nkeys st) (s_case st).
 Definition set_pase (st : state) (x : pase_st) : state :=
   mkState (s_fs st) (s_bc st) (s_win st) x (s_fabs st) (s_nets st) (s_kv st)
-          (s_key st) (s_root st) (s_nkeys st).
+          (s_key st) (s_root st) (s_nkeys st) (s_case st).
 Definition set_fabs (st : state) (x : list fabric) : state :=
   mkState (s_fs st) (s_bc st) (s_win st) (s_pase st) x (s_nets st) (s_kv st)
-          (s_key st) (s_root st) (s_nkeys st).
+          (s_key st) (s_root st) (s_nkeys st) (s_case st).
 Definition set_nets (st : state) (x : nets) : state :=
   mkState (s_fs st) (s_bc st) (s_win st) (s_pase st) (s_fabs st) x (s_kv st)
-          (s_key st) (s_root st) (s_nkeys st).
+          (s_key st) (s_root st) (s_nkeys st) (s_case st).
 Definition set_kv (st : state) (x : kvs) : state :=
   mkState (s_fs st) (s_bc st) (s_win st) (s_pase st) (s_fabs st) (s_nets st) x
-          (s_key st) (s_root st) (s_nkeys st).
+          (s_key st) (s_root st) (s_nkeys st) (s_case st).
+Definition set_case (st : state) (x : list (N * bool)) : state :=
+  mkState (s_fs st) (s_bc st) (s_win st) (s_pase st) (s_fabs st) (s_nets st) (s_kv st)
+          (s_key st) (s_root st) (s_nkeys st) x.
 
 Definition load_nets (kv : kvs) : nets :=
   match k_net kv with Some n => n | None => nets_reset end.
@@ -236,33 +253,36 @@ Definition remove_pase (p : pase_st) (keep : bool) : pase_st :=
   if keep then match p with PLive f => PExpired f | q => q end
   else PAbsent.
 
-Definition expire (st : state) (keep : bool) : option state :=
+Definition is_sp (c : option sess) : bool := match c with Some SP => true | _ => false end.
+Definition is_sc (c : option sess) (f : N) : bool :=
+  match c with Some (SC g) => g =? f | _ => false end.
+
+Definition expire (st : state) (caller : option sess) : state :=
   match s_fs st with
-  | Idle => Some st
+  | Idle => st
   | Armed f _ =>
+    let reloaded := fget f (k_fabs (s_kv st)) in
     let fabs' :=
-      if f =? 0 then Some (s_fabs st)
-      else match fget f (s_fabs st) with
-           | None => None
-           | Some _ =>
-             let l := fdel f (s_fabs st) in
-             Some (match fget f (k_fabs (s_kv st)) with
-                   | Some kf => fset kf l
-                   | None => l
-                   end)
-           end in
-    match fabs' with
-    | None => None
-    | Some l =>
-      Some (mkState Idle 0 (s_win st) (remove_pase (s_pase st) keep) l
-                    (load_nets (s_kv st)) (s_kv st) (s_key st) (s_root st) (s_nkeys st))
-    end
+      if f =? 0 then s_fabs st
+      else let l := fdel f (s_fabs st) in
+           match reloaded with Some kf => fset kf l | None => l end in
+    let removed := negb (f =? 0) && match reloaded with None => true | Some _ => false end in
+    let case' :=
+      if removed then
+        match cget f (s_case st) with
+        | Some false => s_case st                       (* no such session any more *)
+        | _ => cset f (is_sc caller f) (s_case st)
+        end
+      else s_case st in
+    mkState Idle 0 (s_win st) (remove_pase (s_pase st) (is_sp caller)) fabs'
+            (load_nets (s_kv st)) (s_kv st) (s_key st) (s_root st) (s_nkeys st) case'
   end.
 
-(** ** Boot: RAM := load(KV).  The controller-side memory (which root was accepted last,
+(** ** Boot: RAM := load(KV).  After a restart the administrator's
+    CASE sessions are established afresh.  The controller-side memory (which root was accepted last,
     how many CSRs were answered) survives; it only names tokens. *)
 Definition boot (kv : kvs) (key root nkeys : N) : state :=
-  mkState Idle 0 false PAbsent (k_fabs kv) (load_nets kv) kv key root nkeys.
+  mkState Idle 0 false PAbsent (k_fabs kv) (load_nets kv) kv key root nkeys [].
 
 (** ** Key-value operations of a command, in order (successful ones only) *)
 Inductive kvop :=
@@ -299,7 +319,7 @@ Definition complete_body (st : state) (sfab : N) (is_pase : bool) (fault : N)
           let n := mkNets true (n_ids (s_nets st)) in
           let kv2 := kv_apply kv1 (KStoreNet n) in
           (mkState Idle 0 false PAbsent (s_fabs st) n kv2
-                   (s_key st) (s_root st) (s_nkeys st),
+                   (s_key st) (s_root st) (s_nkeys st) (s_case st),
            StOk, [KStoreFab fb; KStoreNet n])
     end
   end.
@@ -309,23 +329,16 @@ Definition mem (k : N) (l : list N) : bool := existsb (N.eqb k) l.
 (** ** One operation *)
 Definition step (st : state) (o : op) : state * status :=
   match o with
-  | OTimeout =>
-    match expire st false with
-    | Some st' => (st', StOk)
-    | None => (st, StNotFound)
-    end
+  | OTimeout => (expire st None, StOk)
   | ORestart => (boot (s_kv st) (s_key st) (s_root st) (s_nkeys st), StOk)
   | ONewPase => (set_pase st (PLive 0), StOk)
+  | ONewCase f => (set_case st (cdel f (s_case st)), StOk)
   | OArm s t bc =>
     match sess_ctx st s with
     | None => (st, StGone)
     | Some (sfab, is_pase) =>
       if negb (allowed st sfab is_pase) then (st, StAccess)
-      else if t =? 0 then
-        match expire st is_pase with
-        | Some st' => (st', StOk)
-        | None => (st, StNotFound)
-        end
+      else if t =? 0 then (expire st (Some s), StOk)
       else match s_fs st with
       | Idle =>
         if negb is_pase && s_win st then (st, StBusy)
@@ -350,7 +363,7 @@ Definition step (st : state) (o : op) : state * status :=
           let k := s_nkeys st + 1 in
           (mkState (Armed f (fl_union fl (if upd then FL_UPD_CSR else FL_ADD_CSR)))
                    (s_bc st) (s_win st) (s_pase st) (s_fabs st) (s_nets st) (s_kv st)
-                   k (s_root st) k, StOk)
+                   k (s_root st) k (s_case st), StOk)
         | CsConstraint | CsMissingCsr => (st, StConstraint)
         | CsAuth | CsFabIdx => (st, StFail)
         end
@@ -369,7 +382,7 @@ Definition step (st : state) (o : op) : state * status :=
         | CsOk =>
           (mkState (Armed f (fl_union fl FL_ROOT))
                    (s_bc st) (s_win st) (s_pase st) (s_fabs st) (s_nets st) (s_kv st)
-                   (s_key st) r (s_nkeys st), StOk)
+                   (s_key st) r (s_nkeys st) (s_case st), StOk)
         | CsConstraint | CsMissingCsr => (st, StConstraint)
         | CsAuth | CsFabIdx => (st, StFail)
         end
@@ -404,14 +417,14 @@ Definition step (st : state) (o : op) : state * status :=
                 if sfab =? 0 then
                   (mkState (Armed idx fl') (s_bc st) (s_win st) (PLive idx)
                            (fset nf (s_fabs st)) (s_nets st) (s_kv st)
-                           (s_key st) (s_root st) (s_nkeys st), StOk)
+                           (s_key st) (s_root st) (s_nkeys st) (s_case st), StOk)
                 else
                   (* the scope guard removes the fabric again; flags and context stay *)
                   (set_fs st (Armed idx fl'), StFail)
               else
                 (mkState (Armed idx fl') (s_bc st) (s_win st) (s_pase st)
                          (fset nf (s_fabs st)) (s_nets st) (s_kv st)
-                         (s_key st) (s_root st) (s_nkeys st), StOk)
+                         (s_key st) (s_root st) (s_nkeys st) (s_case st), StOk)
           end
         end
       end
@@ -439,7 +452,7 @@ Definition step (st : state) (o : op) : state * status :=
             let nf := mkFabric (f_idx fb) (f_root fb) nid (s_key st) (f_acl fb) in
             (mkState (Armed sfab (fl_union fl FL_UPD_NOC)) (s_bc st) (s_win st) (s_pase st)
                      (fset nf (s_fabs st)) (s_nets st) (s_kv st)
-                     (s_key st) (s_root st) (s_nkeys st), StOk)
+                     (s_key st) (s_root st) (s_nkeys st) (s_case st), StOk)
           end
         end
       end
@@ -518,10 +531,7 @@ Definition step (st : state) (o : op) : state * status :=
     | None => (st, StGone)
     | Some (sfab, is_pase) =>
       if negb (allowed st sfab is_pase) then (st, StAccess)
-      else match expire st is_pase with
-      | Some st' => (set_win st' false, StOk)
-      | None => (st, StNotFound)
-      end
+      else (set_win (expire st (Some s)) false, StOk)
     end
   end.
 
@@ -543,4 +553,4 @@ Definition init_state (window with_nets : bool) (nfab : N) (with_pase : bool) : 
   let fabs := if nfab =? 2 then [fab_init 1; fab_init 2] else [fab_init 1] in
   let n := if with_nets then Some (mkNets true [7]) else None in
   let kv := mkKv fabs n in
-  mkState Idle 0 window (if with_pase then PLive 0 else PAbsent) fabs (load_nets kv) kv 0 0 0.
+  mkState Idle 0 window (if with_pase then PLive 0 else PAbsent) fabs (load_nets kv) kv 0 0 0 [].
